@@ -1080,7 +1080,7 @@ class HistogramBase(abc.ABC):
         keys = keys.union(set(second._meta_data.keys()))
         return {
             key: (
-                first._meta_data.get(key, None)
+                copy_module.deepcopy(first._meta_data.get(key, None))
                 if first._meta_data.get(key, None) == second._meta_data.get(key, None)
                 else None
             )
